@@ -37,6 +37,7 @@ type Line struct {
 	Ev M      `json:"ev,omitempty"`
 	St *State `json:"st,omitempty"`
 	Ds *DataState `json:"ds,omitempty"`
+	Xs *IntertxState `json:"xs,omitempty"`
 	Ob M      `json:"ob,omitempty"`
 }
 
@@ -69,6 +70,7 @@ type runner struct {
 	restartAt map[int]bool
 	blockSteps int
 	lastData   *DataState
+	lastX      *IntertxState
 }
 
 func noneResp() M { return M{"none": true} }
@@ -82,6 +84,13 @@ func (r *runner) observe(ob M) *State {
 		return nil
 	}
 	ctx := r.app.Ctx()
+	if r.b.Family == "intertx" {
+		r.lastX = r.app.ProjectIntertx(ctx)
+		for k, v := range obsOf(&Notes{Malformed: []string{}, OffLattice: []string{}, Extra: []string{}, Overflow: []string{}}) {
+			ob[k] = v
+		}
+		return nil
+	}
 	if r.b.Family == "data" {
 		ds, notes := r.app.ProjectData(ctx)
 		for k, v := range obsOf(notes) {
@@ -151,11 +160,11 @@ func (r *runner) run() {
 	}
 	ob := M{"panicked": p != "", "panic": p}
 	st := r.observe(ob)
-	r.lines = append(r.lines, &Line{K: "init", ID: b.ID, St: st, Ds: r.lastData, Ob: ob,
+	r.lines = append(r.lines, &Line{K: "init", ID: b.ID, St: st, Ds: r.lastData, Xs: r.lastX, Ob: ob,
 		Ev: M{"type": "Init", "m": M{"type": "Init"}, "ok": true, "resp": noneResp(), "signers": []string{}, "dom": "spec"}})
 
 	for _, m := range b.Steps {
-		r.step(m)
+		r.step(cloneM(m)) // the concretiser rewrites amount leaves; keep the behaviour pristine for replicas
 		if r.fatal != "" {
 			return
 		}
@@ -208,6 +217,10 @@ func (r *runner) step(m M) {
 		ob["closed_apphash"] = hash
 		ev["ok"] = p == ""
 		ev["signers"] = []string{"none"}
+	case "SetChannel":
+		ev["ok"] = true
+		ev["signers"] = []string{"none"}
+		r.app.itx.setChannel(str(m, "owner"), str(m, "conn"), boolean(m, "active"), boolean(m, "cap"))
 	case "ExportImport":
 		ev["ok"] = true
 		ev["signers"] = []string{"none"}
@@ -259,7 +272,7 @@ func (r *runner) step(m M) {
 	if typ == "Query" && st != nil {
 		r.queries(ob, int(num(m, "n")), st)
 	}
-	r.lines = append(r.lines, &Line{K: "step", Ev: ev, St: st, Ds: r.lastData, Ob: ob})
+	r.lines = append(r.lines, &Line{K: "step", Ev: ev, St: st, Ds: r.lastData, Xs: r.lastX, Ob: ob})
 }
 
 func firstLine(s string) string {
